@@ -23,18 +23,17 @@ Definition op_bar (o : op) : option N :=
   end.
 
 (** A call is possible in state [s]: the handles it uses have not been dropped (ownership:
-    a dropped handle cannot be used); add/insert* take a bar that is not a member already;
-    insert_before/insert_after name a member (the Rust code panics in `index().unwrap()` /
-    `.position().unwrap()` otherwise). *)
+    a dropped handle cannot be used); insert_before/insert_after name a member (the Rust code
+    panics in `index().unwrap()` / `.position().unwrap()` otherwise).  add/insert* of a bar that
+    IS a member already is a possible call (since fix bee77c9 it has no effect). *)
 Definition op_ok (s : sys) (o : op) : bool :=
   match op_bar o with Some b => alive s b | None => true end
   && match o with
      | OInsert loc b =>
-         negb (is_member s b)
-         && match loc with
-            | BAfter r | BBefore r => alive s r && is_member s r
-            | _ => true
-            end
+         match loc with
+         | BAfter r | BBefore r => alive s r && is_member s r
+         | _ => true
+         end
      | _ => true
      end.
 
@@ -62,8 +61,10 @@ End Runs.
 (* ------------------------------------------------------------------ C02 (1): the list spec *)
 Record aspec := mkas { a_order : list N (* bar ids, top to bottom *); a_dropped : list N }.
 
-(** add / insert / insert_from_back / insert_after / insert_before on a plain list *)
+(** add / insert / insert_from_back / insert_after / insert_before on a plain list; a bar that is
+    in the list already stays where it is ("will have no effect") *)
 Definition a_ins (loc : bloc) (b : N) (ord : list N) : list N :=
+  if memN b ord then ord else
   match loc with
   | BEnd => ord ++ [b]
   | BIndex p => insert_at ord (Nat.min (N.to_nat p) (length ord)) b
@@ -274,6 +275,9 @@ Section Actions.
         (if finished br then [] else finish_actions s b (b_on_finish br))
         ++ match b_target br with TMulti idx => [AMark idx] | _ => [] end
     | OInsert bl b =>
+        match b_target (get_bar s b) with
+        | TMulti _ => []     (* already a member: no effect (fix bee77c9) *)
+        | _ =>
         let loc :=
           match bl with
           | BEnd => Some LEnd
@@ -285,13 +289,11 @@ Section Actions.
         match loc with
         | Some l =>
             match ms_insert (s_mp s) l with
-            | Some _ => AInsert l :: match b_target (get_bar s b) with
-                                     | TMulti idx0 => [AStore idx0 [] []; ADraw true None]
-                                     | _ => []
-                                     end
+            | Some _ => [AInsert l]
             | None => []
             end
         | None => []
+        end
         end
     | ORemove b => match b_target (get_bar s b) with TMulti idx => [ARemove idx; ADraw true None] | _ => [] end
     | OMPrintln m => [ADraw true (Some (match m with [] => [mkline KEmpty []] | _ => map (mkline KText) (lines_of m) end))]
